@@ -222,6 +222,8 @@ theorem snaLoad_triple {a0 : Asset} (fx : Fix) (r : Recv) (hr : r.WF) (hg : snaG
     by_cases h : SNA_48K_SIZE < a0.len
     · omega
     · simp [h] at hlen; omega
+  apply Triple.bind (guardM_triple _ _ (fun s hs => hs.fin (by simp only [stepBound]; omega)))
+  intro _; apply Triple.pure_pre; intro _
   apply Triple.bind (readExactM_triple 27 (by simp only [stepBound]; omega))
   intro h; apply Triple.pure_pre; intro hh; subst hh; apply Triple.pure_pre; intro _
   apply Triple.bind getAsset_triple
